@@ -105,9 +105,13 @@ def evaluate_all(b, x):
     lls = float(b.calculate_likelihood(xv, scaled=True))
     d = b.calculate_likelihood_and_derivatives(xv, scaled=False, hessian=True, bhhh=True)
     ds = b.calculate_likelihood_and_derivatives(xv, scaled=True, hessian=True, bhhh=True)
+    ds2 = b.calculate_likelihood_and_derivatives(xv, scaled=True, hessian=False, bhhh=True)     # BHHH asked without Hessian
+    ds3 = b.calculate_likelihood_and_derivatives(xv, scaled=False, hessian=False, bhhh=True)
     return dict(names=names, ll=ll, lls=lls, f=float(d.function), g=[float(v) for v in d.gradient],
                 h=[[float(v) for v in r_] for r_ in d.hessian], bh=[[float(v) for v in r_] for r_ in d.bhhh],
-                fs=float(ds.function), gs=[float(v) for v in ds.gradient])
+                fs=float(ds.function), gs=[float(v) for v in ds.gradient],
+                hs=[[float(v) for v in r_] for r_ in ds.hessian], bhs=[[float(v) for v in r_] for r_ in ds.bhhh],
+                bhs2=[[float(v) for v in r_] for r_ in ds2.bhhh], bh3=[[float(v) for v in r_] for r_ in ds3.bhhh])
 
 
 def simulate_rows(model, weight, rows, x):
@@ -486,6 +490,13 @@ def run_task(task):
                     bad('scaled-not-ll-over-sample-size', f'scaled={ev["lls"]!r}/{ev["fs"]!r} LL={ev["ll"]!r} N={n} T={T}', **kw)
                 if not all(close(a, c / n, 1e-12) for a, c in zip(ev['gs'], ev['g'])):
                     bad('scaled-gradient', f'{ev["gs"]} vs {ev["g"]}/N', **kw)
+                if not all(close(a, c / n, 1e-12) for ra, rc in zip(ev['hs'], ev['h']) for a, c in zip(ra, rc)):
+                    bad('scaled-hessian', f'{ev["hs"]} vs {ev["h"]}/N', **kw)
+                if not all(close(a, c / n, 1e-12) for ra, rc in zip(ev['bhs'], ev['bh']) for a, c in zip(ra, rc)) \
+                        or not all(close(a, c / n, 1e-12) for ra, rc in zip(ev['bhs2'], ev['bh']) for a, c in zip(ra, rc)):
+                    bad('scaled-bhhh', f'{ev["bhs"]} / without Hessian {ev["bhs2"]} vs {ev["bh"]}/N', **kw)
+                if not all(close(a, c, 1e-12) for ra, rc in zip(ev['bh3'], ev['bh']) for a, c in zip(ra, rc)):
+                    bad('bhhh-depends-on-hessian-flag', f'{ev["bh3"]} vs {ev["bh"]}', **kw)
                 if not all(close(a, c, 1e-8) for a, c in zip(ev['g'], ref_g)):
                     bad('gradient-not-weighted-sum', f'g={ev["g"]} reference={ref_g} rows={tab} perm={perm} T={T}', **kw)
                 if not all(close(ev['h'][i][j], ref_h[i][j], 1e-8) for i in range(len(free)) for j in range(len(free))):
